@@ -29,6 +29,8 @@ class Machine:
         self.enum = prog.enum_with(names[0], fn.file)
         self.names = {v: k for k, v in self.enum.items()}
         seqnode = ex.strip(self.swb.term["cond"])
+        if seqnode is None or seqnode.get("k") != "mem":
+            raise AnalysisBroken("%s: state switch is not on a record field" % fn.name)
         self.rets = prog.enum("lzma_ret")
         self.retnames = {v: k for k, v in self.rets.items()}
         kseq = fd.Key("field", seqnode["f"], rec=seqnode.get("rec"),
